@@ -250,6 +250,12 @@ type dnsPair struct {
 }
 
 func startDnsServer(r *Run, addr string) (*sdns.ServerDnsListener, chan net.Conn, error) {
+	return startDnsServerGated(r, addr, nil)
+}
+
+// startDnsServerGated: with a gate, the server application does not call Accept before the gate is closed
+// (a busy or stalled acceptor; the listener serves DNS queries all the same and queues new sessions).
+func startDnsServerGated(r *Run, addr string, gate chan struct{}) (*sdns.ServerDnsListener, chan net.Conn, error) {
 	r.Net.SourceIP = ServerIP
 	comm, err := sdns.NewNetConnectionServerCommunicator(&mdns.Server{Addr: addr, Net: "udp"})
 	if err != nil {
@@ -258,6 +264,9 @@ func startDnsServer(r *Run, addr string) (*sdns.ServerDnsListener, chan net.Conn
 	ln := sdns.NewServerDnsListener(Domain, comm)
 	ch := make(chan net.Conn, 64)
 	go func() {
+		if gate != nil {
+			<-gate
+		}
 		for {
 			c, err := ln.Accept()
 			if err != nil {
